@@ -51,6 +51,7 @@ Definition astep (A : astate) (o : op) : astate * ret :=
   | OCopyNew i j => if a_raw A i && a_live A j then (upd A i (Some (aget A j)), RUnit) else (A, RSkip)
   | ONewData i p n =>
     if a_raw A i then (upd A i (Some (fst (a_set_ptr None p n))), RUnit) else (A, RSkip)
+  | ONewStr i l => if a_raw A i then (upd A i (Some (Some (take 512 l))), RUnit) else (A, RSkip)
   | ODestroy i => if a_live A i then (upd A i None, RUnit) else (A, RSkip)
   | OAssign i j => if a_live A i && a_live A j then (upd A i (Some (aget A j)), RUnit) else (A, RSkip)
   | OSetBuf i j =>
@@ -65,8 +66,9 @@ Definition astep (A : astate) (o : op) : astate * ret :=
     else (A, RSkip)
   | OSetStr i l =>
     if a_live A i then (upd A i (Some (Some (take 512 l))), RBool true) else (A, RSkip)
-  | OSetFromString i v =>
-    if a_live A i then (upd A i (Some (Some (take 512 v))), RBool true) else (A, RSkip)
+  | OSetFromString i text =>
+    (* one slot per comma separated item (its leading decimal number, stored as a byte), at most 512 *)
+    if a_live A i then (upd A i (Some (Some (take 512 (sfs_values text)))), RBool true) else (A, RSkip)
   | OSetRangeToValue i off v n =>
     if a_live A i then
       let r := a_range (aget A i) off (fun room => repeat v (N.to_nat (N.min n room))) in
@@ -84,6 +86,26 @@ Definition astep (A : astate) (o : op) : astate * ret :=
   | OSetChannel i ch v =>
     if a_live A i then
       (upd A i (Some (fst (a_range (aget A i) ch (fun _ => [v])))), RUnit)
+    else (A, RSkip)
+  | OSetRaw i j k n =>
+    if a_live A i && a_live A j && negb (Nat.eqb i j) then
+      if k + n <=? len (contents (aget A j)) then
+        match aget A j with
+        | None => (A, RBool false)                       (* null pointer *)
+        | Some l => (upd A i (Some (Some (take n (drop k l)))), RBool true)
+        end
+      else (A, RSkip)
+    else (A, RSkip)
+  | OSetRangeRaw i off j k n =>
+    if a_live A i && a_live A j && negb (Nat.eqb i j) then
+      if k + n <=? len (contents (aget A j)) then
+        match aget A j with
+        | None => (A, RBool false)
+        | Some l =>
+          let r := a_range (aget A i) off (fun room => take (N.min n room) (drop k l)) in
+          (upd A i (Some (fst r)), RBool (snd r))
+        end
+      else (A, RSkip)
     else (A, RSkip)
   | OHTPMerge i j =>
     if a_live A i && a_live A j then
@@ -104,6 +126,12 @@ Fixpoint arun (A : astate) (ops : list op) : astate :=
   | o :: r => arun (fst (astep A o)) r
   end.
 
+Fixpoint atrace (A : astate) (ops : list op) : list ret :=
+  match ops with
+  | [] => []
+  | o :: r => snd (astep A o) :: atrace (fst (astep A o)) r
+  end.
+
 Definition aquery (A : astate) (q : query) : ans :=
   match q with
   | QSize i => if a_live A i then ANum (len (contents (aget A i))) else ASkip
@@ -115,14 +143,17 @@ Definition aquery (A : astate) (q : query) : ans :=
   | QEq i j =>
     if a_live A i && a_live A j
     then ABool (list_eqb (contents (aget A i)) (contents (aget A j))) else ASkip
+  | QNe i j =>
+    if a_live A i && a_live A j
+    then ABool (negb (list_eqb (contents (aget A i)) (contents (aget A j)))) else ASkip
   end.
 
 (* target of an operation: the only slot whose value it may change *)
 Definition target (o : op) : nat :=
   match o with
-  | ONew i | OCopyNew i _ | ONewData i _ _ | ODestroy i | OAssign i _ | OSetBuf i _ | OSetPtr i _ _
+  | ONew i | OCopyNew i _ | ONewData i _ _ | ONewStr i _ | ODestroy i | OAssign i _ | OSetBuf i _ | OSetPtr i _ _
   | OSetStr i _ | OSetFromString i _ | OSetRangeToValue i _ _ _ | OSetRange i _ _ _
-  | OSetChannel i _ _ | OHTPMerge i _ | OBlackout i | OReset i => i
+  | OSetChannel i _ _ | OSetRaw i _ _ _ | OSetRangeRaw i _ _ _ _ | OHTPMerge i _ | OBlackout i | OReset i => i
   end.
 
 (* the caller's side of the contract: an array passed with a length holds at least the bytes the
